@@ -67,6 +67,7 @@ fn run_case(case: &Case, out: &mut Out) {
     "share" => suites::share_suite::run(case, out),
     "multi" => suites::multi_suite::run(case, out),
     "locks" => suites::locks_suite::run(case, out),
+    "composite" => suites::composite_suite::run(case, out),
     "behaviorrace" => suites::brace_suite::run(case, out),
     s => panic!("unknown suite {}", s),
   }
